@@ -10,6 +10,9 @@
 (* always, all raising once), evaluate() calls that raise followed by further evaluate() calls; the eager  *)
 (* twin's calls under the same plans are explored by EBSpec.                                               *)
 (* Part 1 exports every description with its valid cuts for the harness (c18.py).                          *)
+(* AsmOn / AsmMaxN: the ways a pipeline object is put together (join, |, copy; PipelineLazy: assembly):    *)
+(* the laws of the flag operators, the lazy assemblies with their eager twins exported for the harness,    *)
+(* and for every description x assembly: a deferred handle exactly from a pipeline assembled lazy.         *)
 EXTENDS PipelineLazy, MC_PipelineCall
 CONSTANTS MaxEv,     \* number of evaluate() calls per handle (2: Evaluate ; ReEvaluate)
           AllKw,     \* TRUE: every keyword subset (valid cuts, surplus, missing); FALSE: valid cuts only
@@ -18,7 +21,9 @@ CONSTANTS MaxEv,     \* number of evaluate() calls per handle (2: Evaluate ; ReE
           UserCacheOn, \* TRUE: every description also as a pipeline with a user cache (first / all functions cached; the flag does not restrict reuse)
           CacheKinds,  \* the kinds of user cache explored (cache_type): "simple" (the kind a construct_dag() block keeps using) and/or "lru" (replaced by the block's own cache)
           FaultsOn,  \* TRUE: every description also with fault plans (FaultChoice)
-          MaxFailEv  \* evaluate() calls per handle that raise (the model's bound on retries under a persistent fault)
+          MaxFailEv, \* evaluate() calls per handle that raise (the model's bound on retries under a persistent fault)
+          AsmOn,     \* TRUE: every description also as a pipeline put together in every way of AsmUniverse (join / `|` / copy), lazy or not
+          AsmMaxN    \* > 0: check the laws of the assembly operators on AsmUniverse(1..AsmMaxN) and export the lazy assemblies with their eager twins
 
 ---------------------------------------------------------------------------
 (* Part 1: export.  One state per description. *)
@@ -37,8 +42,44 @@ FaultChoice(dd)  == IF FaultsOn THEN {Zero(dd), [j \in FIdx(dd) |-> 1]} \cup {On
 WithFaults(dd, F) == IF F = Zero(dd) THEN dd
                      ELSE IF "cache_type" \in DOMAIN dd THEN [funcs |-> dd.funcs, cache_type |-> dd.cache_type, faults |-> F]
                      ELSE [funcs |-> dd.funcs, faults |-> F]
+(* Assemblies of a pipeline of n functions: the listing cut into at most 3 consecutive parts, each a pipeline (lazy or not) or -  *)
+(* a single function that is not the receiver - a bare PipeFunc; one part: used as constructed, several: joined by join or by |;  *)
+(* afterwards nothing, .copy(), .copy(lazy=True) or .copy(lazy=False).  Excluded (don't-care): an eager receiver collecting the  *)
+(* functions of lazy pipelines.                                                                                                  *)
+RECURSIVE Comps(_, _)
+Comps(n, k) == IF k = 1 THEN {<<n>>} ELSE UNION {{Append(c, m) : c \in Comps(n - m, k - 1)} : m \in 1..(n - k + 1)}
+PartChoices(m, first) == {[kind |-> "pipeline", n |-> m, lazy |-> b] : b \in BOOLEAN}
+                         \cup (IF ~first /\ m = 1 THEN {[kind |-> "func", n |-> 1, lazy |-> FALSE]} ELSE {})
+RECURSIVE PartSeqs(_, _)
+PartSeqs(c, k) == IF k = 0 THEN {<<>>} ELSE {Append(ps, p) : ps \in PartSeqs(c, k - 1), p \in PartChoices(c[k], k = 1)}
+AsmPosts == {<<>>, <<"copy">>, <<"copy_lazy">>, <<"copy_eager">>}
+AsmParts(n)    == {q \in UNION {PartSeqs(c, Len(c)) : c \in UNION {Comps(n, k) : k \in 1..(IF n < 3 THEN n ELSE 3)}} :
+                      q[1].lazy \/ \A i \in 1..Len(q) : ~q[i].lazy}
+AsmUniverse(n) == {a \in {[op |-> o, parts |-> ps, post |-> po] : ps \in AsmParts(n), o \in {"direct", "join", "or"}, po \in AsmPosts} :
+                      a.op = "direct" <=> Len(a.parts) = 1}
+(* the eager twin of an assembly: put together in the same way from eager pipelines *)
+TwinOf(a) == [op |-> a.op, parts |-> [i \in 1..Len(a.parts) |-> [a.parts[i] EXCEPT !.lazy = FALSE]],
+              post |-> [j \in 1..Len(a.post) |-> IF a.post[j] = "copy_lazy" THEN "copy_eager" ELSE a.post[j]]]
+ExplicitPost(a) == \E j \in 1..Len(a.post) : a.post[j] # "copy"
+(* Laws of the assembly operators (checked on the universe when AsmMaxN > 0):                                                     *)
+(*  - every member is a well-formed assembly, and so is its twin, which is eager                                                   *)
+(*  - unless a copy states the flag, the pipeline is lazy exactly if the receiver - the first part - is: neither the number, kind  *)
+(*    or flags of the other parts, nor the operator (join / |), nor plain copies matter; a stated flag is the flag                 *)
+AsmLaws(n) == \A a \in AsmUniverse(n) :
+                 /\ AsmWellFormed(a, n) /\ AsmWellFormed(TwinOf(a), n) /\ ~AsmFlag(TwinOf(a))
+                 /\ (~ExplicitPost(a) => AsmFlag(a) = a.parts[1].lazy)
+                 /\ (Len(a.post) > 0 /\ a.post[Len(a.post)] = "copy_lazy" => AsmFlag(a))
+                 /\ (Len(a.post) > 0 /\ a.post[Len(a.post)] = "copy_eager" => ~AsmFlag(a))
+                 /\ (a.op = "join" => AsmFlag([a EXCEPT !.op = "or"]) = AsmFlag(a))
+LazyAssemblies(n) == {[asm |-> a, twin |-> TwinOf(a)] : a \in {x \in AsmUniverse(n) : AsmFlag(x)}}
+ASSUME AsmMaxN = 0 \/ \A n \in 1..AsmMaxN : AsmLaws(n)
+ASSUME AsmMaxN = 0 \/ \A n \in 1..AsmMaxN : PrintT(<<"ASMS", ToJson([n |-> n, asms |-> LazyAssemblies(n)])>>)
+NoAsm == [op |-> "none"]
+WithAsm(dd, a) == IF a.op = "none" THEN dd
+                  ELSE [f \in DOMAIN dd \cup {"asm", "easm"} |-> IF f = "asm" THEN a ELSE IF f = "easm" THEN TwinOf(a) ELSE dd[f]]
+AsmChoice(dd)  == IF AsmOn THEN AsmUniverse(NF(dd)) ELSE {NoAsm}
 LUInit == \E dd \in {x \in Universe : Valid(x) /\ DescHash(x) % NShards = Shard} : \E c \in CacheChoice(dd) :
-              \E F \in FaultChoice(dd) : LazyInit(WithFaults(WithCache(dd, c), F))
+              \E F \in FaultChoice(dd) : \E a \in AsmChoice(dd) : LazyInit(WithAsm(WithFaults(WithCache(dd, c), F), a))
 LUNext == UNCHANGED allvars
 LUSpec == LUInit /\ [][LUNext]_allvars
 LEmit  == PrintT(<<"CASE", ToJson([desc |-> d,
@@ -48,6 +89,14 @@ InvRefGraphOK == \A o \in AllOutputs(d) : \A C \in Cuts(d, o) : TaskGraphOK(d, K
 (* law: contracting pickers never loses or invents a dependency between functions that the description does not have *)
 InvDepEdgesStatic == \A o \in AllOutputs(d) : \A C \in Cuts(d, o) :
                         \A e \in DepEdges(d, KwOf(C), o) : e[1] \in StaticDeps(d, e[2]) /\ e[1] # e[2]
+
+(* law (every description x every assembly, lazy or not): a deferred handle can be had - LBegin - exactly from a pipeline whose    *)
+(* assembly yields lazy, for every output and valid cut, with and without construct_dag(); the twin is always an eager pipeline      *)
+InvLazyExactlyWhenAssembledLazy ==
+    /\ ~TwinIsLazy(d)
+    /\ \A o \in AllOutputs(d) : \A C \in Cuts(d, o) : \A m \in Modes, g \in BOOLEAN :
+          (ENABLED LBegin(o, KwOf(C), m, g)) <=> PipelineIsLazy(d)
+    /\ ("asm" \in DOMAIN d => PipelineIsLazy(d) = AsmFlag(d.asm))
 
 ---------------------------------------------------------------------------
 (* Part 2: behaviours *)
@@ -60,7 +109,7 @@ ClearCache == /\ ~lazy /\ phase = "idle" /\ nh = 0 /\ memo # {}
               /\ UNCHANGED <<cvars, lazy, dag, nev, count, val, graph, nh, fvars>>
 RefHit == MayBeOld(d, kw, out, memo)
 (* the eager twin under its fault plan (valid cuts): begin ; invocations that complete / one that raises ; return / raise *)
-EagerNext == \/ (phase = "idle" /\ ~lazy /\ nh = 0 /\ \E o \in AllOutputs(d) : \E C \in Cuts(d, o) : \E m \in Modes :
+EagerNext == \/ (phase = "idle" /\ ~lazy /\ nh = 0 /\ ~TwinIsLazy(d) /\ \E o \in AllOutputs(d) : \E C \in Cuts(d, o) : \E m \in Modes :
                        Eager(Begin(o, KwOf(C), m)))
              \/ (phase = "running" /\ ~lazy /\ \E i \in FIdx(d) : ECall(i, ArgsOf(d, kw, i)) \/ ECallFail(i, ArgsOf(d, kw, i)))
              \/ (phase = "running" /\ ~lazy /\ (Eager(Return(Eval(d, kw, out))) \/ Eager(ReturnFull(FullValue(d, kw, out)))))
